@@ -4,7 +4,8 @@
 (*  Orient  sym ("ac" symmetric | "abc" triaxial); view angles theta, phi, *)
 (*          psi (degrees); jitter distributions jt, jp, js = [v, w]        *)
 (*          (values in degrees centred on zero, weights) for theta, phi,   *)
-(*          psi; detector points qx[j], qy[j]; V = the particle volume;    *)
+(*          psi, jreq = the requested points and width per angle;          *)
+(*          detector points qx[j], qy[j]; V = the particle volume;    *)
 (*          I2d[j] = the model's 2-D intensity (scale 1, background 0);    *)
 (*          pts[m][j] = for jitter mesh point m (lexicographic over        *)
 (*          jt x jp x js) the particle-frame vector <<qa,qb,qc>> the       *)
@@ -37,6 +38,14 @@ ParticleQ(R, qx, qy) == LET E(i) == FAdd(FMul(R[1][i], qx), FMul(R[2][i], qy)) I
 
 NearQ(a, b, scale) == FNear(a, b, "0.0", FMul("1e-12", scale))
 
+\* the jitter mesh of one angle against the request: centred on zero (never on the view angle), no more
+\* points than asked for, a single point when one point or a zero width was asked for
+JitterOK(d, req) ==
+    LET n == Len(d.v) IN
+    IF req.n <= 1 \/ FEq(req.width, "0.0") THEN n = 1 /\ FEq(d.v[1], "0.0")
+    ELSE /\ n <= req.n
+         /\ \A i \in 1..n : FNear(d.v[i], FNeg(d.v[n + 1 - i]), "0.0", "1e-9") /\ FNear(d.w[i], d.w[n + 1 - i], "1e-12", "0.0")
+
 ApplyOrient(e) ==
     LET nt == Len(e.jt.v)  np == Len(e.jp.v)  ns == Len(e.js.v)
         nq == Len(e.qx)
@@ -60,6 +69,8 @@ ApplyOrient(e) ==
        \* parameters the model itself declares invalid: no point qualifies, the result is the background (0)
        ELSE IF ~e.valid THEN (IF FVecEq(e.I2d, FVecConst(nq, Z)) THEN <<>> ELSE <<"invalid-parameters-not-excluded", ToString(e.I2d)>>)
        \* an empty jitter distribution is an empty mesh (C01): background
+       ELSE IF ~(JitterOK(e.jt, e.jreq.theta) /\ JitterOK(e.jp, e.jreq.phi) /\ JitterOK(e.js, e.jreq.psi)) THEN
+            <<"jitter-mesh-not-about-zero", ToString(<<e.jt.v, e.jp.v, e.js.v, e.jreq>>)>>
        ELSE IF M = 0 THEN (IF FVecEq(e.I2d, FVecConst(nq, Z)) THEN <<>> ELSE <<"empty-jitter-mesh-not-background", ToString(e.I2d)>>)
        ELSE IF Len(e.pts) # M THEN <<"harness-mesh-size", ToString(<<Len(e.pts), M>>)>>
        ELSE IF \E m \in 1..M : \E j \in 1..nq : ~QOK(m, j) THEN
